@@ -38,12 +38,21 @@ type caseSpec struct {
 	cid0    int32
 	closeAt int // Close() is called by a racing goroutine after this many writes (-1: never)
 	script  []string
+	wfail   []int // client write attempts (0-based) that fail with 0 bytes written, connection stays usable
 	rep     int // replay only: how often the case is re-run (default 40)
 }
 
 func (c caseSpec) params() string {
-	return fmt.Sprintf("rt=%d tr=%s callers=%d per=%d seed=%d closeAt=%d script=%s",
-		c.rtMs, c.tr, c.callers, c.per, c.seed, c.closeAt, strings.Join(c.script, ","))
+	wf := ""
+	if len(c.wfail) > 0 {
+		s := make([]string, len(c.wfail))
+		for i, x := range c.wfail {
+			s[i] = strconv.Itoa(x)
+		}
+		wf = " wfail=" + strings.Join(s, ",")
+	}
+	return fmt.Sprintf("rt=%d tr=%s callers=%d per=%d seed=%d closeAt=%d%s script=%s",
+		c.rtMs, c.tr, c.callers, c.per, c.seed, c.closeAt, wf, strings.Join(c.script, ","))
 }
 
 func parseCase(line string) (caseSpec, bool) {
@@ -78,6 +87,12 @@ func parseCase(line string) (caseSpec, bool) {
 			c.closeAt = hlib.Atoi(v)
 		case "rep":
 			c.rep = hlib.Atoi(v)
+		case "wfail":
+			for _, x := range strings.Split(v, ",") {
+				if x != "" {
+					c.wfail = append(c.wfail, hlib.Atoi(x))
+				}
+			}
 		case "script":
 			if v != "" {
 				c.script = strings.Split(v, ",")
@@ -290,6 +305,9 @@ var panics int32
 func runCase(c caseSpec) caseResult {
 	res := caseResult{}
 	lg := newCaseLog()
+	for _, x := range c.wfail {
+		lg.failAt[x] = true
+	}
 	rng := hlib.NewRand(c.seed)
 	maxResp := sarama.MaxResponseSize
 
@@ -477,6 +495,9 @@ func runCase(c caseSpec) caseResult {
 				case r.class == "insuff":
 					// ErrInsufficientData: header tag byte >= 0x80 or a body cut short - the model knows which
 					op, ans = fmt.Sprintf("R %d insuff", i), "insuff"
+				case !wrote && r.class == "io" && lg.failed[i]:
+					// the failed write itself is in the log (WF); this is the return of the call
+					op, ans = fmt.Sprintf("R %d err sendio", i), "failed sendio"
 				case !wrote && (r.class == "notconn" || r.class == "io"):
 					cls := r.class
 					if cls == "io" {
@@ -581,7 +602,16 @@ func runCase(c caseSpec) caseResult {
 	lines := append([][2]string{}, lg.lines...)
 	wrote := lg.wrote
 	nT, nX := lg.nT, lg.nX
+	failedW := map[int]bool{}
+	for k := range lg.failed {
+		failedW[k] = true
+	}
 	lg.mu.Unlock()
+	for i, r := range results {
+		if failedW[i] && atomic.LoadInt32(&finished[i]) == 1 && (r.class == "ok" || r.class == "sent") {
+			res.fails = append(res.fails, ioFail{"c14-failed-write-reported-success", fmt.Sprintf("call %d: the write of its request failed with 0 bytes written, the call returned %s", i, r.class)})
+		}
+	}
 	connErr := map[string]bool{"cid": true, "len": true, "tag": true, "io": true, "timeout": true}
 	firstFault := -1 // smallest wire index of a call that failed with a connection-level error
 	for i, r := range results {
@@ -634,7 +664,7 @@ func runCase(c caseSpec) caseResult {
 			}
 		case "sent":
 		default:
-			if faultFree && nT == 0 && nX == 0 && !closedByRacer {
+			if faultFree && nT == 0 && nX == 0 && !closedByRacer && !failedW[i] {
 				res.fails = append(res.fails, ioFail{"c14-error-without-fault", fmt.Sprintf("call %d failed (%s: %s) although the server answered every request correctly", i, r.class, r.errStr)})
 			}
 			if wr && w.expect && connErr[r.class] && firstFault >= 0 && w.idx > firstFault {
@@ -674,7 +704,7 @@ func runCase(c caseSpec) caseResult {
 						maxOut = out
 					}
 				}
-			case strings.HasPrefix(l[0], "R ") && !strings.HasSuffix(l[0], " sent"):
+			case strings.HasPrefix(l[0], "R ") && !strings.HasSuffix(l[0], " sent") && !strings.HasSuffix(l[0], " err sendio"):
 				out--
 			}
 		}
@@ -995,6 +1025,37 @@ func main() {
 			}
 			c.cid0 = int32(rng.Pick(0, 0, 1, 1000, 2147000000, int(rng.U64()%2000000000)))
 			add(c)
+		}
+	}
+
+	if run.ReplayLines() == nil {
+		// appended family with its own PRNG (the streams above are unchanged): a request write fails with 0 bytes
+		// written while the connection stays usable; the failed call must return an error, every other call its own
+		// response (correlation ids keep advancing, no promise is left behind), later calls and Close return
+		wr := hlib.NewRand(run.Seed*0x9E3779B1 + 0x14f)
+		nw := len(cases) / 10
+		for k := 0; k < nw; k++ {
+			c := caseSpec{closeAt: -1, tr: "mem", rtMs: 1000}
+			c.id = len(cases)
+			c.M = wr.Pick(1, 2, 2, 5)
+			c.callers = wr.Range(1, 8)
+			c.per = wr.Range(2, 4)
+			c.seed = wr.U64()>>1 | 1
+			c.cid0 = int32(wr.Intn(100000))
+			total := c.callers * c.per
+			c.wfail = []int{wr.Intn(total)}
+			if wr.Chance(1, 3) {
+				if x := wr.Intn(total); x != c.wfail[0] {
+					c.wfail = append(c.wfail, x)
+				}
+			}
+			for j := wr.Intn(4); j > 0; j-- {
+				c.script = append(c.script, []string{"ok", "split2", "okd2"}[wr.Intn(3)])
+			}
+			if wr.Chance(1, 4) {
+				c.script = append([]string{"hold"}, c.script...)
+			}
+			cases = append(cases, c)
 		}
 	}
 
